@@ -36,6 +36,13 @@ def _alarm(signum, frame):
 def crash_site(exc: BaseException) -> str:
     """`Type: file: function` of the innermost repository frame (stable across line moves)."""
     tb = traceback.extract_tb(exc.__traceback__)
+    if isinstance(exc, RecursionError):
+        names = {fr.name for fr in tb if '/pbhhg_py/' in fr.filename}
+        if 'do_IO' in names:
+            return "RecursionError: nested do_IO / bind continuations"
+        if names & {'formatter', 'recursive_strict', 'as_key', 'format', 'map_strict_with_hook'}:
+            return "RecursionError: nested-value traversal (formatter / recursive_strict / as_key)"
+        return "RecursionError: " + ",".join(sorted(names))[:80]
     site = None
     for fr in tb:
         if '/pbhhg_py/' in fr.filename:
@@ -163,9 +170,11 @@ class Recorder(interpret.DebuggerBase):
     """passive observer: records the event stream"""
     def __init__(self):
         self.events = []
+        self.keep = []          # keep every Expr alive: id() of a collected object may be reused
 
     def before_eval(self, depth, expr):
         m = expr.expr.metadata
+        self.keep.append(expr)
         self.events.append(('B', depth, (m.line_no, m.start_col, m.end_col), id(expr)))
 
     def after_eval(self, depth, expr, result):
